@@ -112,7 +112,17 @@ class PropertyCheck:
         self.seed = seed
         self.t0 = time.time()
         self.pmod = importlib.import_module(f"props.{prop}")
-        self.areas = [load_area(a) for a in self.pmod.AREAS]
+        names = []
+
+        def add(a):
+            m = load_area(a)
+            for d in getattr(m, "DEPENDS", []):
+                add(d)
+            if a not in names:
+                names.append(a)
+        for a in self.pmod.AREAS:
+            add(a)
+        self.areas = [load_area(a) for a in names]
         spec_modules = []
         for a in self.areas:
             for m in getattr(a, "SPEC_MODULES", ("wire",)):
@@ -173,7 +183,7 @@ class PropertyCheck:
 
     def run(self):
         fns, lems = self.selected()
-        timeout = 30 if self.tier == "quick" else 120
+        timeout = 90 if self.tier == "quick" else 240
         execs = []
         for L in lems:
             execs.append(("lemma", L, self.eng.verify_lemma(L)))
